@@ -467,4 +467,115 @@ Section Proofs.
         * now rewrite shred_fields_none.
         * now rewrite shred_fields_nil.
   Qed.
+  (** ** the projected value is well formed *)
+
+  Lemma zero_wfn n :
+    (forall t, wfn n (erase t) (zero_val t)) /\
+    (forall fs, wfn_fields n (erase_fields fs) (zero_fields fs)).
+  Proof.
+    apply (nschema_both (fun t => wfn n (erase t) (zero_val t))
+                        (fun fs => wfn_fields n (erase_fields fs) (zero_fields fs))).
+    - intros; exact I.
+    - intros fs IH. exact IH.
+    - exact I.
+    - intros nm rp s IHs fs IHf. destruct rp; cbn.
+      + split; assumption.
+      + exact IHf.
+      + split; [split; [lia|constructor]|exact IHf].
+  Qed.
+
+  Lemma default_wfn n rp t fs vs :
+    wfn_fields n (erase_fields fs) vs ->
+    wfn_fields n (FCons rp (erase t) (erase_fields fs)) (field_default V zero rp t :: vs).
+  Proof.
+    intros H. destruct rp; cbn.
+    - split; [apply zero_wfn|exact H].
+    - exact H.
+    - split; [split; [lia|constructor]|exact H].
+  Qed.
+
+  Lemma project_wfn n :
+    (forall tgt src v, compat src tgt = true -> wf_nschema src -> wfn n (erase src) v ->
+        wfn n (erase tgt) (project src tgt v)) /\
+    (forall tfs sfs vs, compat_fields sfs tfs = true -> wf_nfields sfs ->
+        wfn_fields n (erase_fields sfs) vs ->
+        wfn_fields n (erase_fields tfs) (project_fields sfs vs tfs)).
+  Proof.
+    apply (nschema_both
+      (fun tgt => forall src v, compat src tgt = true -> wf_nschema src -> wfn n (erase src) v ->
+        wfn n (erase tgt) (project src tgt v))
+      (fun tfs => forall sfs vs, compat_fields sfs tfs = true -> wf_nfields sfs ->
+        wfn_fields n (erase_fields sfs) vs ->
+        wfn_fields n (erase_fields tfs) (project_fields sfs vs tfs))).
+    - intros ty [ty'|sfs] v Hc Hs Hv; [|discriminate]. exact Hv.
+    - intros tfs IH [ty'|sfs] v Hc Hs Hv; [discriminate|]. destruct Hs as [Hp Hs].
+      destruct v as [|vs| |]; cbn in Hv; try contradiction.
+      cbn [Model.project erase]. change (wfn_fields n (erase_fields tfs) (project_fields sfs vs tfs)).
+      now apply IH.
+    - intros; exact I.
+    - intros nm rp t IHt tfs IHf sfs vs Hc Hs Hv.
+      cbn [compat_fields] in Hc. apply andb_true_iff in Hc. destruct Hc as [Hc1 Hc2].
+      rewrite project_fields_cons. cbn [erase_fields].
+      specialize (IHf sfs vs Hc2 Hs Hv).
+      destruct (find_field nm sfs 0 0) as [[[[off pos] rs] s]|] eqn:Ef; [|now apply default_wfn].
+      apply andb_true_iff in Hc1. destruct Hc1 as [Hrep Hcst].
+      assert (rs = rp) by (destruct rs, rp; cbn in Hrep; congruence). subst rs.
+      destruct (find_block nm n 0 0 0 sfs vs off pos rp s Hs Hv Ef) as (fv & Hnth & Hfw & _ & _ & Hws).
+      rewrite Hnth. destruct rp; cbn [field_wfn] in Hfw.
+      + cbn. split; [|exact IHf]. now apply IHt.
+      + destruct fv as [| |[v0|]|]; try contradiction; cbn; [split; [now apply IHt|exact IHf]|exact IHf].
+      + destruct fv as [| | |l]; try contradiction. destruct Hfw as [Hn Hl]. cbn. split; [|exact IHf].
+        split; [now rewrite map_length|].
+        apply Forall_forall. intros y Hy. apply in_map_iff in Hy. destruct Hy as (y0 & <- & Hy0).
+        rewrite Forall_forall in Hl. apply IHt; auto.
+  Qed.
+
+  (** ** reading a schema through itself *)
+
+  Inductive suffix_of (sfs : nfields) : nfields -> nat -> Prop :=
+  | suf_nil : forall pos, suffix_of sfs NNil pos
+  | suf_cons : forall nm rp t tfs off pos,
+      find_field nm sfs 0 0 = Some (off, pos, rp, t) -> suffix_of sfs tfs (S pos) ->
+      suffix_of sfs (NCons nm rp t tfs) pos.
+
+  Lemma suffix_weaken m r s fs : forall tfs pos,
+    suffix_of fs tfs pos -> has_name m tfs = false -> suffix_of (NCons m r s fs) tfs (S pos).
+  Proof.
+    induction 1 as [|nm rp t tfs off pos Hf _ IH]; intros Hn; [constructor|].
+    cbn [has_name] in Hn. apply orb_false_iff in Hn. destruct Hn as [Hne Hn].
+    apply (suf_cons _ _ _ _ _ (nl s + off)); [|now apply IH].
+    cbn [find_field]. rewrite N.eqb_sym in Hne. rewrite N.eqb_sym, N.eqb_sym, Hne || rewrite Hne.
+    rewrite find_field_acc, Hf. reflexivity.
+  Qed.
+
+  Lemma suffix_self fs : wf_nfields fs -> suffix_of fs fs 0.
+  Proof.
+    induction fs as [|m r s fs IH]; intros Hw; [constructor|].
+    destruct Hw as (Hn & _ & Hfs).
+    apply (suf_cons _ _ _ _ _ 0).
+    - cbn. now rewrite N.eqb_refl.
+    - apply suffix_weaken; auto.
+  Qed.
+
+  Lemma skipn_cons_nth {A} (l : list A) pos x rest :
+    skipn pos l = x :: rest -> nth_error l pos = Some x /\ skipn (S pos) l = rest.
+  Proof.
+    revert l. induction pos as [|pos IH]; intros [|y l] H; cbn in *; try discriminate.
+    - inversion H; subst. split; reflexivity.
+    - now apply IH.
+  Qed.
+
+  Lemma project_self n :
+    (forall s v, wfn n (erase s) v -> project s s v = v) /\
+    (forall tfs sfs vs pos, suffix_of sfs tfs pos ->
+        wfn_fields n (erase_fields tfs) (skipn pos vs) -> project_fields sfs vs tfs = skipn pos vs).
+  Proof.
+    apply (nschema_both
+      (fun s => forall v, wfn n (erase s) v -> project s s v = v)
+      (fun tfs => forall sfs vs pos, suffix_of sfs tfs pos ->
+        wfn_fields n (erase_fields tfs) (skipn pos vs) -> project_fields sfs vs tfs = skipn pos vs)).
+    - intros; reflexivity.
+    - intros fs IH v Hv. destruct v as [|vs| |]; cbn in Hv; try contradiction.
+      cbn [Model.project]. f_equal.
+  Abort.
 End Proofs.
